@@ -221,7 +221,12 @@ def run_case(R: Recorder, case: dict[str, Any], verbose: bool = False) -> None:
 
 
 def cases(tier: str):  # noqa: ANN201
-    for d, outcome, T, c in itertools.product(DURATIONS, OUTCOMES, TIMEOUTS, CANCELS):
+    durations, timeouts, cancels = DURATIONS, TIMEOUTS, CANCELS
+    if tier == "thorough":  # finer dyadic grid
+        durations = (0.0, 0.25, 0.5, 1.0, 1.25, 1.75, 2.0, 2.75)
+        timeouts = (0.25, 0.5, 0.75, 1.0, 1.5, 2.0, 2.5, 3.0)
+        cancels = (None, *[x / 4 for x in range(0, 15)])
+    for d, outcome, T, c in itertools.product(durations, OUTCOMES, timeouts, cancels):
         for scoped in (False, True):
             yield {"d": d, "outcome": outcome, "T": T, "c": c, "scoped": scoped}
         # cancel requests a few loop iterations after the instant at which the function ends / the deadline fires
